@@ -18,6 +18,7 @@ namespace
         double kval = 1.0;
         u64 kpat = 0;
         double dt = 1.0;
+        int reuse = 0;  // 1: judged step is the second call of an eroder re-parameterised with set_k_coef
         std::vector<double> h;
     };
 
@@ -25,7 +26,7 @@ namespace
     {
         std::ostringstream o;
         o << "shape=" << c.nr << "x" << c.nc << ";sp=" << hexd(c.sr) << ":" << hexd(c.sc) << ";border=" << status_char(c.border)
-          << ";kmode=" << c.kmode << ";K=" << hexd(c.kval) << ";kpat=" << c.kpat << ";dt=" << hexd(c.dt) << ";e=";
+          << ";kmode=" << c.kmode << ";K=" << hexd(c.kval) << ";kpat=" << c.kpat << ";dt=" << hexd(c.dt) << ";reuse=" << c.reuse << ";e=";
         for (std::size_t i = 0; i < c.h.size(); ++i)
             o << (i ? " " : "") << hexd(c.h[i]);
         return o.str();
@@ -46,6 +47,7 @@ namespace
         c.kval = unhexd(kv["K"]);
         c.kpat = std::strtoull(kv["kpat"].c_str(), nullptr, 10);
         c.dt = unhexd(kv["dt"]);
+        c.reuse = kv.count("reuse") ? std::atoi(kv["reuse"].c_str()) : 0;
         for (auto& t : split(kv["e"], ' '))
             if (!t.empty())
                 c.h.push_back(unhexd(t));
@@ -172,7 +174,10 @@ namespace
 
     using grid_t = fs::raster_grid<fs::xt_selector, fs::raster_connect::queen>;
 
-    std::vector<double> run_lib(const ACase& c)
+    // reuse = true: the eroder is constructed with another diffusivity (other kind and value),
+    // makes one step on another field, and only then receives the judged parameters through
+    // set_k_coef(); the judged step is its second call
+    std::vector<double> run_lib(const ACase& c, bool reuse = false)
     {
         GridSpec g;
         g.kind = RASTER;
@@ -189,6 +194,29 @@ namespace
         for (std::size_t i = 0; i < c.h.size(); ++i)
             h.flat(i) = c.h[i];
         std::vector<double> out(c.h.size());
+        auto kf = k_field(c);
+        xt::xtensor<double, 2> k = xt::zeros<double>({ shape[0], shape[1] });
+        for (std::size_t i = 0; i < kf.size(); ++i)
+            k.flat(i) = kf[i];
+        if (reuse)
+        {
+            xt::xtensor<double, 2> decoy_k = k * 3.0 + 0.5;
+            xt::xarray<double> decoy_h = h * -2.0 + 1.0;
+            std::unique_ptr<fs::diffusion_adi_eroder<grid_t>> er;
+            if (c.kmode == 0)
+                er = std::make_unique<fs::diffusion_adi_eroder<grid_t>>(grid, decoy_k);
+            else
+                er = std::make_unique<fs::diffusion_adi_eroder<grid_t>>(grid, 2.0 * c.kval + 1.0);
+            (void) er->erode(decoy_h, c.dt * 0.5 + 0.25);
+            if (c.kmode == 0)
+                er->set_k_coef(c.kval);
+            else
+                er->set_k_coef(k);
+            const auto& e = er->erode(h, c.dt);
+            for (std::size_t i = 0; i < out.size(); ++i)
+                out[i] = e.flat(i);
+            return out;
+        }
         if (c.kmode == 0)
         {
             fs::diffusion_adi_eroder<grid_t> er(grid, c.kval);
@@ -198,10 +226,6 @@ namespace
         }
         else
         {
-            auto kf = k_field(c);
-            xt::xtensor<double, 2> k = xt::zeros<double>({ shape[0], shape[1] });
-            for (std::size_t i = 0; i < kf.size(); ++i)
-                k.flat(i) = kf[i];
             fs::diffusion_adi_eroder<grid_t> er(grid, k);
             const auto& e = er.erode(h, c.dt);
             for (std::size_t i = 0; i < out.size(); ++i)
@@ -218,7 +242,7 @@ namespace
         std::vector<double> got;
         try
         {
-            got = run_lib(c);
+            got = run_lib(c, c.reuse != 0);
         }
         catch (const std::exception& e)
         {
@@ -392,7 +416,14 @@ namespace
                                         c.h.assign(n, 0.0);
                                         c.h[i] = 1.0;
                                         basis.push_back(c.h);
+                                        c.reuse = 0;
                                         judge(ctx, c);
+                                        if ((i % 3) == 1)
+                                        {
+                                            c.reuse = 1;
+                                            judge(ctx, c);
+                                            c.reuse = 0;
+                                        }
                                     }
                                     // scaled / shifted copies and a rough field
                                     c.h.assign(n, 7.25);
